@@ -18,6 +18,8 @@ def selftest():
     ctx.P = Program(root=FX, package="fxpkg")
     ctx.R = Resolver(ctx.P)
     ctx._facts, ctx._does = {}, {}
+    from .engine import _build_signatures
+    _build_signatures(ctx.P)
     P = ctx.P
     fails = []
 
@@ -85,6 +87,9 @@ def selftest():
     expect("object stored back: silent", not common.dead_local_stores(ctx, tb.methods["stored_update"]))
     expect("looked-up number defaulted by `or`: flagged", bool(common.numeric_lookup_or_default(tb.methods["zero_is_missing"])))
     expect("looked-up number defaulted on absence: silent", not common.numeric_lookup_or_default(tb.methods["absent_is_missing"]))
+    expect("argument named like another parameter (keyword): flagged", bool(common.argument_name_mismatches(P.func(L + "swapped_keyword"))))
+    expect("argument named like another parameter (positional): flagged", len(common.argument_name_mismatches(P.func(L + "swapped_positional"))) == 2)
+    expect("arguments in place: silent", not common.argument_name_mismatches(P.func(L + "straight")))
     # the whole-package rewrites produce programs that parse and are stable under a second application of reformat
     from .audit import transforms
     with open(os.path.join(FX, "fxpkg", "lints.py")) as fh:
